@@ -54,3 +54,35 @@ let () =
         let p = Sequencer.plan (Stdlib.List.map parse_seed seeds) (parse_rows rows) in
         if p = [] then "-" else Stdlib.String.concat "," (Stdlib.List.map show_cand p)
     | _ -> "ERR args")
+
+(* ---- assemble trace ----
+   c01.atrace <idx: idhex:size,...|-> <plan: first:last,...|-> <file0 hex> <events|->
+   events: S:j  W:j:off:hex  V:j:i  P:j:i  T:j:i:hex  C:j:i:src  F:j
+   Answer: "ok <all_finished 0|1> <file hex>" | "FAIL <position>" *)
+let () =
+  let nat s = nat_of_int (int_of_string s) in
+  let parse_ev (t : string) : Assemble.event =
+    match split ':' t with
+    | ["S"; j] -> Assemble.EStart (nat j)
+    | ["W"; j; off; hx] -> Assemble.EWrite (nat j, nat off, bytes_of_hex hx)
+    | ["V"; j; i] -> Assemble.EValidate (nat j, nat i)
+    | ["P"; j; i] -> Assemble.EInPlace (nat j, nat i)
+    | ["T"; j; i; hx] -> Assemble.EStore (nat j, nat i, bytes_of_hex hx)
+    | ["C"; j; i; src] -> Assemble.ESelfCopy (nat j, nat i, nat src)
+    | ["F"; j] -> Assemble.EFinish (nat j)
+    | _ -> failwith ("bad event " ^ t) in
+  Drv.register "c01.atrace" (fun args -> match args with
+    | [idx; plan; file0; evs] ->
+        let h = Sha256.h_model in
+        let idx = if idx = "-" then [] else Stdlib.List.map (fun t -> match split ':' t with
+          | [i; sz] -> (Sha256.id_of_hex i, nat sz) | _ -> failwith "bad row") (split ',' idx) in
+        let plan = if plan = "-" then [] else Stdlib.List.map (fun t -> match split ':' t with
+          | [f; l] -> (nat f, nat l) | _ -> failwith "bad seg") (split ',' plan) in
+        let evs = if evs = "-" then [] else Stdlib.List.map parse_ev (split ',' evs) in
+        let rec go pos s = function
+          | [] -> Ok s
+          | e :: r -> (match Assemble.step h idx plan s e with Some s' -> go (pos + 1) s' r | None -> Error pos) in
+        (match go 0 (Assemble.init plan (bytes_of_hex file0)) evs with
+         | Error pos -> "FAIL " ^ string_of_int pos
+         | Ok s -> "ok " ^ (if Assemble.all_finished s then "1" else "0") ^ " " ^ hex_of_bytes s.Assemble.a_file)
+    | _ -> "ERR args")
